@@ -1,5 +1,7 @@
 #!/venv/bin/python
-"""Sensitivity of the C12 check (R5): each mutation of the import machinery is
+"""Sensitivity of the C12 check (R5) (a further mutation, moving the import
+resolution loop of ParseFile before the own-prefix loop, is a block move and was
+applied by hand in a git worktree: see checks/c12.notes.md round 3): each mutation of the import machinery is
 applied to a scratch copy of /repo OUTSIDE /repo and /verif, the check is run
 with LOGICA_REPO=<copy> and must print VIOLATION; the copy is deleted.
 
@@ -72,6 +74,16 @@ MUTATIONS = [
          old='  for (const auto& root : roots) {\n    std::filesystem::path p = std::filesystem::path(root) / rel;',
          new='  std::reverse(roots.begin(), roots.end());\n  for (const auto& root : roots) {\n    std::filesystem::path p = std::filesystem::path(root) / rel;',
          why='C++ parser: the last import root wins'),
+    dict(name='cpp_only_capitalised_names_prefixed', base='repo', file=CPP,
+         old='if (!p.empty() && p[0] != \'@\' && p != "++?") {\n        Json rr(rules);',
+         new='if (!p.empty() && std::isupper(static_cast<unsigned char>(p[0]))) {\n        Json rr(rules);',
+         why='C++ parser: private predicates with lower-case / underscore / '
+             'backtick names keep their unprefixed name and collide'),
+    dict(name='field_rename_only_for_predicate_values', base='repo', file=PY,
+         old="    if 'field' in e and e['field'] == old_name:",
+         new="    if ('field' in e and e['field'] == old_name and\n        'the_predicate' in str(e.get('value', {}).get('expression', {}).get('literal', {}))):",
+         why='functor argument names with a constant value are not renamed: '
+             'VeryBig := Big(Threshold: 4) fails inside an imported module'),
     dict(name='cpp_alias_ignored', base='repo', file=CPP,
          old='std::string imported_as = ip.at("synonym").is_null() ? imported_pred_name : ip.at("synonym").as_string();',
          new='std::string imported_as = imported_pred_name;',
